@@ -2,6 +2,11 @@
    qmi.core.config_struct.  The section variables of the model are instantiated by observations
    of the library functions they stand for (json.loads with a non-raising pairs hook; float(int)). *)
 Require Export QV.Lib.Corr QV.C16.Model.
+From Coq Require Import String Ascii.
+
+(* compact case terms: a run of printable ASCII characters is written as a Coq string literal *)
+Fixpoint ss (s : string) : str :=
+  match s with EmptyString => [] | String a r => N_of_ascii a :: ss r end.
 
 Definition str_eq (a b : str) : bool := list_eqb N.eqb a b.
 
@@ -80,6 +85,30 @@ Inductive pobs :=
 | PoErr (k : ekind) (p : path)   (* QMI_ConfigurationException with this message kind and item path *)
 | PoOther.                       (* any other exception, or an unreadable message *)
 
+(* observed outcome of _check_config_struct_type *)
+Inductive cobs :=
+| CoOk
+| CoErr (k : ckind) (p : list cpelem)   (* QMI_ConfigurationException, message kind and definition path *)
+| CoOther.
+Definition cpelem_eqb (a b : cpelem) : bool :=
+  match a, b with
+  | CAny, CAny => true
+  | CIdx i, CIdx j => Nat.eqb i j
+  | CField k, CField k' => str_eq k k'
+  | _, _ => false
+  end.
+Definition ckind_eqb (a b : ckind) : bool :=
+  match a, b with
+  | CUnion, CUnion | CNonStrKey, CNonStrKey | CType, CType => true
+  | _, _ => false
+  end.
+Definition cobs_match (m : cres) (o : cobs) : bool :=
+  match m, o with
+  | COk, CoOk => true
+  | CErr k p, CoErr k' p' => ckind_eqb k k' && list_eqb cpelem_eqb p p'
+  | _, _ => false
+  end.
+
 Definition opt_nat_eqb := option_eqb Nat.eqb.
 
 Inductive case :=
@@ -90,7 +119,11 @@ Inductive case :=
 (* configuration data; dump_config_string(data) (None = QMI_ConfigurationException) *)
 | CDump (d : jval) (text : option str)
 (* declared type; data; observed float(z) for the integers of the data; outcome *)
-| CParse (T : cty) (d : jval) (ftab : list (Z * option str)) (obs : pobs).
+| CParse (T : cty) (d : jval) (ftab : list (Z * option str)) (obs : pobs)
+(* annotation; outcome of _check_config_struct_type(annotation, []) *)
+| CCheck (a : ann) (obs : cobs)
+(* annotation (any); data; float table; outcome of _parse_config_value(data, annotation, []) *)
+| CParseAnn (a : ann) (d : jval) (ftab : list (Z * option str)) (obs : pobs).
 
 Definition foi_of (tab : list (Z * option str)) (z : Z) : option str :=
   match find (fun e => Z.eqb (fst e) z) tab with Some (_, r) => r | None => None end.
@@ -119,6 +152,8 @@ Definition check_case (c : case) : bool :=
       list_eqb opt_nat_eqb (model_cuts text) cuts && lobs_match (load (fun _ => raw) text) obs
   | CDump d text => option_eqb str_eq (dump d) text
   | CParse T d ftab obs => pobs_match (from_dict (foi_of ftab) T d) obs
+  | CCheck a obs => cobs_match (check a []) obs
+  | CParseAnn a d ftab obs => pobs_match (parse_ann (foi_of ftab) a d []) obs
   end.
 
 (* for replays: what the model says *)
@@ -126,11 +161,14 @@ Inductive model_res :=
 | MCuts (cuts : list (option nat)) (stripped : str)
 | MLoad (cuts : list (option nat)) (r : lres)
 | MDump (text : option str)
-| MParse (r : result cval).
+| MParse (r : result cval)
+| MCheck (r : cres).
 Definition model_out (c : case) : model_res :=
   match c with
   | CStrip text _ => MCuts (model_cuts text) (strip text)
   | CLoad text _ raw _ => MLoad (model_cuts text) (load (fun _ => raw) text)
   | CDump d _ => MDump (dump d)
   | CParse T d ftab _ => MParse (from_dict (foi_of ftab) T d)
+  | CCheck a _ => MCheck (check a [])
+  | CParseAnn a d ftab _ => MParse (parse_ann (foi_of ftab) a d [])
   end.
